@@ -344,6 +344,7 @@ def run_suite(name, tier, seed, workdir, replay_lines=None):
     shards = 1 if replay_lines is not None else cfg.get('shards', NPROC)
     os.makedirs(workdir, exist_ok=True)
     procs = []
+    hangs = []
     t0 = time.time()
     for i in range(shards):
         out = os.path.join(workdir, '%s.%d.cases' % (name, i))
@@ -362,7 +363,10 @@ def run_suite(name, tier, seed, workdir, replay_lines=None):
             p.kill()
             so, se = p.communicate()
             errs.append('harness shard %d timed out' % i)
-        if p.returncode != 0:
+        if p.returncode == 4 and b'HANGCASE ' in (se or b''):
+            # the watchdog of the harness: a call of the implementation did not return; the history it was given is a failing input
+            hangs.append([l[len('HANGCASE '):] for l in (se or b'').decode(errors='replace').split('\n') if l.startswith('HANGCASE ')])
+        elif p.returncode != 0:
             errs.append('harness shard %d exit %s: %s' % (i, p.returncode, (se or b'').decode(errors='replace')[-500:]))
     t1 = time.time()
     dprocs = []
@@ -392,7 +396,7 @@ def run_suite(name, tier, seed, workdir, replay_lines=None):
         parts = [_compare_shard(j) for j in jobs]
     allh = set()
     tot = dict(suite=name, results=0, records=0, nontrivial=0, ndiff=0, diffs=[], mon_fail=[], mon_count={},
-               samples=[], notes=[], errors=errs, missing_model=0, unmodelled=0,
+               samples=[], notes=[], errors=errs, hangs=hangs, missing_model=0, unmodelled=0,
                t_harness=round(t1 - t0, 2), t_driver=round(t2 - t1, 2))
     for part in parts:
         for k in ('results', 'records', 'nontrivial', 'ndiff', 'missing_model', 'unmodelled'):
@@ -444,6 +448,7 @@ def merge_results(a, b):
     tot['diffs'] = a['diffs'] + b['diffs']
     tot['mon_fail'] = a['mon_fail'] + b['mon_fail']
     tot['errors'] = a['errors'] + b['errors']
+    tot['hangs'] = a.get('hangs', []) + b.get('hangs', [])
     mc = {k: list(v) for k, v in b['mon_count'].items()}
     for k, v in a['mon_count'].items():
         c = mc.setdefault(k, [0, 0])
@@ -695,7 +700,12 @@ def check(prop, tier, seed):
                                                         'mon_count', 'notes', 't_harness', 't_driver', 't_compare')})
             log('[suite %s] %d results, %d distinct cases, %d model/impl differences, monitors %s (%.1fs harness, %.1fs model, %.1fs compare)'
                 % (s, res['results'], res['distinct'], res['ndiff'], json.dumps(res['mon_count']), res['t_harness'], res['t_driver'], res['t_compare']))
-            if res['errors'] or res['missing_model'] != 0 and res['ndiff'] == 0:
+            for hcase in res.get('hangs', [])[:2]:
+                path = write_replay(prop, 'failing-input', dict(
+                    property=prop, kind='failing-input', suite=s, seed=seed, monitor='termination', cls='call-does-not-return',
+                    case=hcase, note='the implementation call that follows this history did not return within 90 s (harness watchdog)'))
+                violations.append((path, ''))
+            if res['errors'] or res['missing_model'] != 0 and res['ndiff'] == 0 and not res.get('hangs'):
                 broken.append(dict(obligation='correspondence suite %s ran to completion' % s, log='\n'.join(res['errors']) or 'model produced %d fewer results' % res['missing_model']))
             mine = [m for m in res['mon_fail'] if m['monitor'] in cfg['monitors']]
             unlisted = []
